@@ -779,9 +779,15 @@ func drive(id, tier string) int {
 		"wall_s":      time.Since(start).Seconds(),
 		"violations":  len(merged.Violations),
 	}
-	os.MkdirAll(filepath.Join(Root(), "evidence"), 0o755)
+	// VERIF_EVIDENCE_DIR is set only by the seeded-change tools, so that runs against a deliberately broken tree do
+	// not overwrite the evidence of the registered checks
+	evDir := filepath.Join(Root(), "evidence")
+	if d := os.Getenv("VERIF_EVIDENCE_DIR"); d != "" {
+		evDir = d
+	}
+	os.MkdirAll(evDir, 0o755)
 	b, _ := json.MarshalIndent(ev, "", " ")
-	os.WriteFile(filepath.Join(Root(), "evidence", id+".json"), append(b, '\n'), 0o644)
+	os.WriteFile(filepath.Join(evDir, id+".json"), append(b, '\n'), 0o644)
 	verdict := "HELD"
 	if rc != 0 {
 		verdict = "VIOLATED"
